@@ -3,6 +3,7 @@ from typing import Any
 from fastapi import APIRouter, Query, Request
 from fastapi.responses import HTMLResponse, JSONResponse
 
+from pynenc.exceptions import InvocationNotFoundError
 from pynmon.app import get_pynenc_instance, templates
 
 router = APIRouter(prefix="/broker", tags=["broker"])
@@ -42,14 +43,26 @@ async def queue_view(
     pending_invocations = []
     queue_size = app.broker.count_invocations()
 
-    # Warning: This operation has overhead as we retrieve and re-queue messages
-    for _ in range(min(limit, queue_size)):
-        if invocation_id := app.broker.retrieve_invocation():
-            pending_invocations.append(app.state_backend.get_invocation(invocation_id))
+    # Warning: This operation has overhead as we retrieve and re-queue messages.
+    # The broker has no peek: drain the whole queue and route every message back
+    # in the same order BEFORE loading anything, so that the page neither rotates
+    # the queue (limit < size) nor loses messages when a record cannot be loaded.
+    queued_ids = []
+    try:
+        for _ in range(queue_size):
+            if (invocation_id := app.broker.retrieve_invocation()) is None:
+                break
+            queued_ids.append(invocation_id)
+    finally:
+        for invocation_id in queued_ids:
+            app.broker.route_invocation(invocation_id)
 
-    for invocation in pending_invocations:
-        # Re-route the invocation back to the broker
-        app.broker.route_invocation(invocation.invocation_id)
+    for invocation_id in queued_ids[: max(limit, 0)]:
+        try:
+            pending_invocations.append(app.state_backend.get_invocation(invocation_id))
+        except InvocationNotFoundError:
+            # Queued id whose stored invocation is gone (e.g. purged state backend)
+            continue
 
     return templates.TemplateResponse(
         request,
